@@ -81,6 +81,17 @@ HISTORIES = {
                    [("cmd", 0, "preface"),
                     ("cmd", 0, "headers", 1, h2_request_headers(b"GET", b"/a", authority=b"other"), True)],
                    {"http": RESPOND}, {"server_names": ["hypercorn"]}),
+    # HTTP/2 by prior knowledge (cleartext preface): no stream is ever opened / one request is served
+    "h2pk_none": ({"carrier": "h2pk"}, [("cmd", 0, "preface")], {"http": RESPOND}, {}),
+    "h2pk_one": ({"carrier": "h2pk"},
+                 [("cmd", 0, "preface"), ("cmd", 0, "headers", 1, h2_request_headers(b"GET", b"/a", scheme=b"http"), True)],
+                 {"http": RESPOND}, {}),
+    # requests the HTTP/2 layer refuses itself: plain CONNECT (400) and a non-ASCII :path (RST_STREAM)
+    "h2_refused": ({"carrier": "h2", "tls": True, "alpn": "h2"},
+                   [("cmd", 0, "preface"),
+                    ("cmd", 0, "headers", 1, [(b":method", b"CONNECT"), (b":authority", b"hypercorn")], True),
+                    ("cmd", 0, "headers", 3, h2_request_headers(b"GET", b"/caf\xc3\xa9"), True)],
+                   {"http": RESPOND}, {}),
     "h2_none": ({"carrier": "h2", "tls": True, "alpn": "h2"}, [("cmd", 0, "preface")], {"http": RESPOND}, {}),
     "h2_one": ({"carrier": "h2", "tls": True, "alpn": "h2"},
                [("cmd", 0, "preface"), ("cmd", 0, "headers", 1, h2_request_headers(b"GET", b"/a"), True)],
@@ -224,7 +235,7 @@ def oracle(w: Any, params: Any) -> List[dict]:
 
 def _from_app(r: dict, name: str) -> bool:
     """Whether a response was produced by an application instance (not generated by the server before one)."""
-    if name in ("badhost", "malformed", "badws", "badhost_h2"):
+    if name in ("badhost", "malformed", "badws", "badhost_h2", "h2_refused"):
         return False
     return True
 
